@@ -32,7 +32,11 @@ func (w *world) dump() string {
 			if f := o.First(); f != nil {
 				first = fmt.Sprint(len(f))
 			}
-			return fmt.Sprintf("%d:%s:%s", o.Size(), hx.Hex(o.ToView()), first)
+			spare := 0
+			if vs := o.Views(); len(vs) > 0 {
+				spare = cap(vs[len(vs)-1]) - len(vs[len(vs)-1])
+			}
+			return fmt.Sprintf("%d:%s:%s:%d", o.Size(), hx.Hex(o.ToView()), first, spare)
 		}))
 	}
 	return strings.Join(p, " ")
